@@ -183,7 +183,7 @@ def gen_program(rng, i):
         if vis == "dist":
             L.append(f"require (distance to other) <= {rng.choice([25, 35])}")
         seam = (abs(h1) >= 135 or abs(h2) >= 135)
-        meta.update(h1=h1, h2=h2, form=form, seam=seam)
+        meta.update(h1=h1, h2=h2, form=form, seam=seam, wrap=bool(abs(h2 - h1) > 180))
     else:
         side = rng.choice([10, 20])
         L.append(f"workspace = Workspace(RectangularRegion(0@0, 0, {side}, {side}))")
@@ -213,11 +213,11 @@ def main():
     exe = common.build_ocaml(PID)
     quick = c.tier == "quick"
     rng = c.rng
-    nmatch = 3000 if quick else 200000
-    nrh = 600 if quick else 20000
+    nmatch = 2000 if quick else 200000
+    nrh = 400 if quick else 20000
     niter = 40 if quick else 400
-    nprog = 36 if quick else 1500
-    nscenes = 60 if quick else 200
+    nprog = 30 if quick else 1500
+    nscenes = 50 if quick else 200
 
     # ================= H-a: matcher
     mcases = []
